@@ -214,7 +214,7 @@ func partC09(a *hcli.Args, rep *report.Report, univName string, u *schema.Univer
 	}
 	// ---- 3. batch key sets: all insertion orders
 	s3 := rep.S("batch-key-insertion-orders")
-	s3.Bounds = fmt.Sprintf("every insertion order of n<=%d keys into string, int64, bytes and hash-colliding simple-key sets; ids must be identical and ascending in encoded order", maxN)
+	s3.Bounds = fmt.Sprintf("every insertion order of n<=%d keys into string, int64, bytes and hash-colliding simple-key sets; ids must be identical and ascending in encoded order, also for sets that were already encoded after every insertion", maxN)
 	strKeys := []string{"b", "a", "a:b", "", "é", "("}
 	intKeys := []int64{5, -1, 0, 1 << 40, 7, -9}
 	for n := 1; n <= maxN && a.Shard == 0; n++ {
@@ -239,6 +239,36 @@ func partC09(a *hcli.Args, rep *report.Report, univName string, u *schema.Univer
 			s3.Transitions += 4
 			s3.Traces += 4
 			s3.States++
+			// earlier use of the same objects: sets that were already encoded after every insertion must
+			// end up with the same bytes as sets encoded once
+			{
+				ss2 := batchkeyset.NewBatchKeySet[string]()
+				is2 := batchkeyset.NewBatchKeySet[int64]()
+				bs2 := batchkeyset.NewBytesKeySet()
+				cs2 := batchkeyset.NewSimpleKeySet[collKey]()
+				for _, i := range order {
+					_ = ss2.AddKey(strKeys[i])
+					_ = is2.AddKey(intKeys[i])
+					_ = bs2.AddKey([]byte(strKeys[i] + "x"))
+					_ = cs2.AddKey(collKey{strKeys[i]})
+					_, _ = ss2.EncodeQueryParams()
+					_, _ = is2.EncodeQueryParams()
+					_, _ = bs2.EncodeQueryParams()
+					_, _ = cs2.EncodeQueryParams()
+				}
+				again := map[string]string{}
+				again["string"], _ = ss2.EncodeQueryParams()
+				again["int64"], _ = is2.EncodeQueryParams()
+				again["bytes"], _ = bs2.EncodeQueryParams()
+				again["colliding"], _ = cs2.EncodeQueryParams()
+				s3.Evaluations += 4
+				s3.Transitions += 4
+				for kind, out := range again {
+					if out != outs[kind] {
+						rep.Fail(fmt.Sprintf("%s det batchkeys %s depends-on-earlier-encoding n=%d", a.Gen, kind, n), fmt.Sprintf("a set encoded after every insertion ends as %q, a set encoded once as %q", out, outs[kind]), nil)
+					}
+				}
+			}
 			for kind, out := range outs {
 				if pi == 0 {
 					firsts[kind] = out
